@@ -13,6 +13,7 @@ var corpus = []struct{ Dir, Type string }{
 	{"alltypes", "AllTypes"},
 	{"doc", "Document"},
 	{"nest3", "Nest3"},
+	{"deep", "Deep"},
 }
 
 func goEnv() []string {
